@@ -136,20 +136,21 @@ def related (d : Dump) (start : Rec) (f : F) : List Rec :=
       | some l => l.filter (·.id != start.id)
       | none => []
 
-/-- holders of `kind` (optionally inside one block) whose metadata field names the section -/
-def metaHolders (d : Dump) (kind secId : String) (block : Option Rec) : List Rec :=
-  d.filter fun r => r.kind == kind && r.field "meta" == secId &&
+/-- holders of `kind` (optionally inside one block) whose metadata link points to the section; `mdOf` = the target of an
+    entity's metadata link as the accepted operations set it -/
+def metaHolders (d : Dump) (mdOf : Rec → String) (kind secId : String) (block : Option Rec) : List Rec :=
+  d.filter fun r => r.kind == kind && mdOf r == secId &&
     (match block with | some b => isBelow b.path r.path | none => true)
 
 def blockOf (d : Dump) (r : Rec) : Option Rec :=
   d.find? fun b => b.kind == "B" && (b.path == r.path || isBelow b.path r.path)
 
-/-- holders of `kind` in the source's block whose source list names the source -/
-def srcHolders (d : Dump) (kind : String) (src : Rec) : List Rec :=
+/-- holders of `kind` in the source's block to which the source is attached; `srcsOf` = the sources attached to an entity
+    as the accepted operations say -/
+def srcHolders (d : Dump) (srcsOf : Rec → List String) (kind : String) (src : Rec) : List Rec :=
   match blockOf d src with
   | none => []
-  | some b => d.filter fun r => r.kind == kind && parentPath r.path == b.path &&
-      ((Proto.parseList (r.field "srcs")).getD []).contains src.id
+  | some b => d.filter fun r => r.kind == kind && parentPath r.path == b.path && (srcsOf r).contains src.id
 
 /-- the record one level up, if it is a source -/
 def parentSource (d : Dump) (src : Rec) : Option Rec :=
@@ -157,10 +158,11 @@ def parentSource (d : Dump) (src : Rec) : Option Rec :=
 
 def propsOf (d : Dump) (sec : Rec) : List Rec := d.filter fun r => r.kind == "P" && parentPath r.path == sec.path
 
-/-- own properties plus the linked section's properties whose name no own property has -/
-def inherited (d : Dump) (sec : Rec) : List Rec :=
+/-- own properties plus the linked section's properties whose name no own property has; `linkOf` = the section a section
+    links to as the accepted operations say -/
+def inherited (d : Dump) (linkOf : Rec → String) (sec : Rec) : List Rec :=
   let own := propsOf d sec
-  match recOfId d "S" (sec.field "link") with
+  match recOfId d "S" (linkOf sec) with
   | none => own
   | some l => own ++ (propsOf d l).filter fun p => !own.any fun o => o.name == p.name
 
